@@ -56,19 +56,25 @@ QUEUED_KNOBS = {'n_min': 1, 'n_max': 3,
 QUEUED_COUNT = {'quick': 160, 'thorough': 3000}
 
 
+# the general family again with slow handshakes (each XML-RPC of a handshake takes 0 - 3 s, L3 engine) and instance
+# restarts: requests are emitted and answered while peers are being checked again
+SLOW_KNOBS = dict(KNOBS, handshake_skew=[0.0, 0.3, 1.0, 2.0, 3.0], actions=KNOBS['actions'] + ['restart', 'restart'])
+
+
 def plan(tier, seed):
     return [{'seed': seed * 1000003 + i} for i in range(COUNT[tier])] + \
         [{'seed': seed * 1000003 + 800000 + i, 'family': 'concurrent-restart-sequence'}
          for i in range(CONCURRENT_COUNT[tier])] + \
         [{'seed': seed * 1000003 + 700000 + i, 'family': 'application-behind-a-queued-process'}
-         for i in range(QUEUED_COUNT[tier])]
+         for i in range(QUEUED_COUNT[tier])] + \
+        [{'seed': seed * 1000003 + 900000 + i, 'family': 'slow-handshake'} for i in range(COUNT[tier] // 8)]
 
 
 def run_case(case):
     tracker = Tracker()
     mon = StartSequenceMonitor(tracker)
     run = Run(case, {'concurrent-restart-sequence': CONCURRENT_KNOBS,
-                     'application-behind-a-queued-process': QUEUED_KNOBS}.get(case.get('family'), KNOBS),
+                     'application-behind-a-queued-process': QUEUED_KNOBS, 'slow-handshake': SLOW_KNOBS}.get(case.get('family'), KNOBS),
               [tracker, mon])
     violations = run.execute()
     for action in run.actions:
